@@ -471,3 +471,40 @@ func (e *RouterEnv) Query(l string, wire []byte, client string, timeout, grace t
 		return [][]byte{body}, "ok"
 	}
 }
+
+// SendRawUDP sends one datagram of arbitrary bytes to the udp listener (no response expected).
+func (e *RouterEnv) SendRawUDP(b []byte) {
+	c, err := net.DialUDP("udp", nil, &net.UDPAddr{IP: net.IPv4(127, 0, 0, 1), Port: e.Ports["udp"]})
+	if err != nil {
+		return
+	}
+	defer c.Close()
+	c.Write(b)
+	c.SetReadDeadline(time.Now().Add(20 * time.Millisecond))
+	buf := make([]byte, 4096)
+	c.Read(buf)
+}
+
+// SendRawTCP writes arbitrary bytes (optionally as one length-prefixed frame) to a stream listener and
+// reports what the server did within a short time: "closed", "reply" or "open".
+func (e *RouterEnv) SendRawTCP(l string, b []byte, frame bool) string {
+	c, err := net.DialTimeout("tcp", fmt.Sprintf("127.0.0.1:%d", e.Ports[l]), time.Second)
+	if err != nil {
+		return "dial-error"
+	}
+	defer c.Close()
+	if frame {
+		b = append(binary.BigEndian.AppendUint16(nil, uint16(len(b))), b...)
+	}
+	c.Write(b)
+	c.SetReadDeadline(time.Now().Add(150 * time.Millisecond))
+	buf := make([]byte, 4096)
+	n, err := c.Read(buf)
+	if n > 0 {
+		return "reply"
+	}
+	if err != nil && !errors.Is(err, os.ErrDeadlineExceeded) {
+		return "closed"
+	}
+	return "open"
+}
